@@ -23,6 +23,8 @@
 From Coq Require Import NArith ZArith List Lia.
 From Mtbl Require Import gen.Consts model.Bytes model.Order model.Block model.Writer spec.Parse model.Reader
   proofs.WriterProofs proofs.MetaProofs proofs.BlockProofs proofs.LookupProofs proofs.ReaderProofs proofs.BlockRT proofs.TableRT.
+(* source ties: the statements of the C functions the model follows (gen/Ties.v is regenerated from /repo on every run) *)
+From Mtbl Require props.Ties_C01.
 Local Open Scope N_scope.
 
 Section C01.
